@@ -51,6 +51,8 @@ func (s *keystore) get(ctx context.Context, prefix bitstr.Key) ([]mh.Multihash, 
   modifies nothing
   ghost at call(IsPrefix): $match = ($ret0 && $arg0 == prefix)
   ghost at append(out): assert(!longPrefix || $match)
+  # the datastore query is over the key's datastore prefix and is never truncated
+  ghost at before call(QueryIter): assert($arg2.Prefix == dsk && $arg2.Limit == 0 && $arg2.Offset == 0)
 
 func (s *keystore) countUpTo(ctx context.Context, prefix bitstr.Key, limit int) (int, error)
   props C20
@@ -62,6 +64,9 @@ func (s *keystore) countUpTo(ctx context.Context, prefix bitstr.Key, limit int) 
   loop 0 invariant n == $hits && n >= 0 && (limit <= 0 || n < limit)
   ghost at call(IsPrefix): $match = ($ret0 && $arg0 == prefix)
   ghost at inc(n): $hits = $hits + 1; assert(!longPrefix || $match)
+  # the cap is only delegated to the datastore when every key under the
+  # datastore prefix matches; results that are filtered in code are never truncated
+  ghost at before call(QueryIter): assert($arg2.Prefix == dsk && $arg2.Offset == 0 && $arg2.Limit == ite(limit > 0 && !longPrefix, limit, 0))
 
 func (s *keystore) containsPrefix(ctx context.Context, prefix bitstr.Key) (bool, error)
   props C20
@@ -69,6 +74,9 @@ func (s *keystore) containsPrefix(ctx context.Context, prefix bitstr.Key) (bool,
   modifies nothing
   ensures [internal-true-only-on-match] imp(result0, result1 == nil && (!longPrefix || $match))
   ghost at call(IsPrefix): $match = ($ret0 && $arg0 == prefix)
+  # one result suffices only when the datastore prefix alone decides; results
+  # that are filtered in code are never truncated (else a later match is missed)
+  ghost at before call(QueryIter): assert($arg2.Prefix == dsk && $arg2.Offset == 0 && $arg2.Limit == ite(longPrefix, 0, 1))
 
 func (s *keystore) loadSize()
   props C20
@@ -163,8 +171,27 @@ func (s *ResettableKeystore) Close() (err error)
   modifies *
   ensures [returns-after-the-worker-exited] imp(tagged("closed:s.close"), tagged("recv:s.done") && tagged("recv:s.altDsBusy"))
 
-func (s *ResettableKeystore) bufferKeys(ctx context.Context, keys []mh.Multihash) error
-  props C14
+# C20 (reset): while a reset is running, EVERY key of an accepted Put - not just
+# the ones new to the old set - is mirrored into the reset buffer before the
+# primary write, so the new set holds it after the swap.
+func (s *ResettableKeystore) put(ctx context.Context, keys []mh.Multihash) ([]mh.Multihash, error)
+  props C20
+  ghostvar $mirrored bool = false
   modifies *
+  ensures [internal-accepted-put-was-mirrored] imp(old(s.resetInProgress) && result1 == nil, $mirrored)
+  ghost at before call(bufferKeys): assert($arg1 == keys)
+  ghost at call(bufferKeys): $mirrored = ($ret0 == nil)
+  ghost at before call(put): assert($arg1 == keys && imp(old(s.resetInProgress), $mirrored))
+
+# bufferKeys returns nil only after every key handed in was appended to the
+# buffer ($done counts them; the slices appended are consecutive pieces of keys)
+func (s *ResettableKeystore) bufferKeys(ctx context.Context, keys []mh.Multihash) error
+  props C14 C20
+  ghostvar $done int = 0
+  modifies *
+  ensures [internal-nil-only-after-buffering-everything] imp(result == nil, $done == len(old(keys)))
+  loop 0 invariant $done + len(keys) == len(old(keys)) && held(s.bufMu)
+  ghost at append(s.buf): assert(len($app) <= len(keys) && all(i, 0, len($app), $app[i] == keys[i])); $done = $done + len($app)
+  ghost at assign(keys): $done = $done
   ghost at recv(s.close): assert(true)
 @*/
